@@ -360,7 +360,7 @@ def skolem_valid(pred, n, what):
     # of the generated obligations does not depend on machine speed
     s = z3.Solver()
     s.set("rlimit", 2000000)
-    for h in abstract_nl(c.hyps() + [i >= 0, i < zi(n), z3.Not(zb(p))]):
+    for h in abstract_nl(c.hyps() + [i >= 0, i < zi(n), z3.Not(zb(p))], c.__dict__.setdefault("_absmemo_prove", {})):
         s.add(h)
     c.stats["feas_checks"] += 1
     return s.check() == z3.unsat
